@@ -477,14 +477,14 @@ def evaluate_include(ctx, cases):
     answers = ctx.driver.batch(reqs)
     for case, rq, ans in zip(cases, reqs, answers):
         obs = observe_impl(case)
-        ctx.count(['include', case['body'], case['includes']], nontrivial=True, tags=['include', f'files={len(case["includes"])}'])
+        ctx.count(['include', case['body'], case['includes']], nontrivial=True, tags=['include', f'files={len(case["includes"])}', 'include-in-domain' if ans['in_domain'] else 'include-outside'])
         if 'error' in obs or obs.get('order') is None:
             continue  # reported by the atoms stream
         got = [x[1] if x[0] == 'i' else 'l' for x in obs['order']]
         spec = [x[1] if x[0] == 'i' else 'l' for x in ans['spec']]
         model = None if ans['model'] is None else [x[1] if x[0] == 'i' else 'l' for x in ans['model']]
         payload = dict(case=case, stream='atoms', expected=spec, actual=got, model=model)
-        if got != spec:
+        if ans['in_domain'] and got != spec:
             ctx.fail('C03|include|order', f'lines after splicing {got}, SHELXL reads {spec}', payload)
         elif got != model:
             ctx.fail('C03|include|order|model', f'lines after splicing {got}, model {model}', payload, kind='correspondence')
